@@ -522,3 +522,94 @@ pub fn params_builder_roundtrip() -> Value {
 	}
 	json!({"probe":"params_builder_roundtrip","disagrees":false,"inputs_tried":tried,"bound":"12 x 12 awkward texts as values and keys"})
 }
+
+// ------------------------------------------------------------------------------------------
+use bytes::Bytes;
+use http_body_util::StreamBody;
+use jsonrpsee_core::http_helpers::read_body;
+
+fn read_chunks(chunks: Vec<Vec<u8>>, content_length: Option<usize>) -> Result<(Vec<u8>, bool), String> {
+	let frames: Vec<Result<http_body::Frame<Bytes>, std::io::Error>> = chunks.into_iter().map(|c| Ok(http_body::Frame::data(Bytes::from(c)))).collect();
+	let body = StreamBody::new(futures_util::stream::iter(frames));
+	let mut headers = http::HeaderMap::new();
+	if let Some(n) = content_length {
+		headers.insert(http::header::CONTENT_LENGTH, n.to_string().parse().unwrap());
+	}
+	let rt = tokio::runtime::Builder::new_current_thread().build().unwrap();
+	rt.block_on(read_body(&headers, body, 1024)).map_err(|e| e.to_string())
+}
+
+/// C19: the outcome of reading a body does not depend on how it is split into chunks nor on Content-Length.
+pub fn http_body_chunking() -> Value {
+	let mut bodies: Vec<Vec<u8>> = vec![
+		br#"{"a":1}"#.to_vec(), b" \n\t{\"a\": \"x y \"}".to_vec(), b"[1, 2]".to_vec(), b"  [ ]".to_vec(), b"x{}".to_vec(), b"   ".to_vec(), b"".to_vec(),
+		b"{".to_vec(), b" \"a\"".to_vec(),
+	];
+	for ws in [126usize, 127, 128, 129] {
+		let mut b = vec![b' '; ws];
+		b.extend_from_slice(b"{}");
+		bodies.push(b);
+	}
+	let mut tried = 0u64;
+	for body in &bodies {
+		let whole = read_chunks(vec![body.clone()], None);
+		let n = body.len();
+		// all 2-way and 3-way splits (cut points may coincide => empty chunks), plus leading/trailing empty chunks
+		let mut splits: Vec<Vec<Vec<u8>>> = vec![vec![vec![], body.clone()], vec![body.clone(), vec![]]];
+		let cuts: Vec<usize> = if n <= 12 { (0..=n).collect() } else { vec![0, 1, 2, n / 2, 125.min(n), 126.min(n), 127.min(n), 128.min(n), 129.min(n), n - 1, n] };
+		for &i in &cuts {
+			for &j in &cuts {
+				if i <= j {
+					splits.push(vec![body[..i].to_vec(), body[i..j].to_vec(), body[j..].to_vec()]);
+				}
+			}
+		}
+		for s in splits {
+			for cl in [None, Some(n)] {
+				tried += 1;
+				let got = read_chunks(s.clone(), cl);
+				if got != whole {
+					return json!({"probe":"http_body_chunking","disagrees":true,
+						"input": format!("body {:?} split into chunks {:?}, Content-Length {:?}", String::from_utf8_lossy(body), s.iter().map(|c| String::from_utf8_lossy(c).to_string()).collect::<Vec<_>>(), cl),
+						"observed": format!("{:?}", got.map(|(b, s)| (String::from_utf8_lossy(&b).to_string(), s))),
+						"expected": format!("{:?} (the outcome for the same bytes in one chunk)", whole.clone().map(|(b, s)| (String::from_utf8_lossy(&b).to_string(), s)))});
+				}
+			}
+		}
+	}
+	json!({"probe":"http_body_chunking","disagrees":false,"inputs_tried":tried,"bound":"13 bodies x all 3-way splits (incl. empty chunks) x Content-Length present/absent"})
+}
+
+/// C19: only the accepted content-type spellings (any ASCII case) are JSON; everything else is not.
+pub fn http_content_type_gate() -> Value {
+	let accepted = [
+		"application/json", "application/json; charset=utf-8", "application/json;charset=utf-8",
+		"application/json-rpc", "application/json-rpc;charset=utf-8", "application/json-rpc; charset=utf-8",
+	];
+	let rejected = [
+		"", "application/json;", "application/json; charset=utf-16", "application/json-rpc;version=2", "application/jsonx", "text/json",
+		"application/text", "application/json ", " application/json", "application/json;charset=utf-8;", "application/json; charset=utf-8 ",
+		"application/json-rpc; charset=latin1", "json", "application/", "application/json,application/json", "multipart/form-data; boundary=application/json",
+	];
+	let mut tried = 0;
+	for a in accepted {
+		for variant in [a.to_string(), a.to_uppercase(), a.replace("json", "JsOn")] {
+			tried += 1;
+			let hv = hyper::header::HeaderValue::from_str(&variant).unwrap();
+			if !jsonrpsee_server::http::is_json(Some(&hv)) {
+				return json!({"probe":"http_content_type_gate","disagrees":true,"input":variant,"observed":"rejected","expected":"accepted"});
+			}
+		}
+	}
+	for r in rejected {
+		tried += 1;
+		let hv = hyper::header::HeaderValue::from_str(r).unwrap();
+		if jsonrpsee_server::http::is_json(Some(&hv)) {
+			return json!({"probe":"http_content_type_gate","disagrees":true,"input":r,"observed":"accepted as JSON","expected":"not a JSON content type (415)"});
+		}
+	}
+	if jsonrpsee_server::http::is_json(None) {
+		return json!({"probe":"http_content_type_gate","disagrees":true,"input":"no Content-Type header","observed":"accepted","expected":"rejected"});
+	}
+	json!({"probe":"http_content_type_gate","disagrees":false,"inputs_tried":tried,"bound":"6 accepted spellings x 3 case variants; 16 near-miss content types; absent header"})
+}
